@@ -185,8 +185,32 @@ def check_offset_free(ctx: CheckContext, p: Program, r: Resolver, rule: str = "O
             continue
         hits = []
         for (fn, mod, root) in _cone(r, g):
+            # index arithmetic (`x[len(x) - 1]`, `range(n + 1)`) is not arithmetic on the extracted value
+            index_nodes = set()
             for nd in ast.walk(root):
-                if isinstance(nd, ast.BinOp) and isinstance(nd.op, (ast.Add, ast.Sub)):
+                if isinstance(nd, ast.Subscript):
+                    index_nodes |= {id(x) for x in ast.walk(nd.slice)}
+                elif isinstance(nd, ast.Call) and isinstance(nd.func, ast.Name) and nd.func.id in ("range", "len", "enumerate", "round", "int"):
+                    for a in nd.args[(1 if nd.func.id == "round" else 0):]:
+                        index_nodes |= {id(x) for x in ast.walk(a)}
+            # the operand the constant is added to must come from a parameter of the enclosing function / lambda (the payload or its magnitude)
+            params_of = {}
+            for sc in ast.walk(root):                    # breadth-first: inner scopes come later and overwrite the outer assignment
+                if not isinstance(sc, (ast.FunctionDef, ast.AsyncFunctionDef, ast.Lambda)):
+                    continue
+                derived = {a_.arg for a_ in sc.args.args + sc.args.kwonlyargs + sc.args.posonlyargs}
+                for _ in range(3):
+                    for x in ast.walk(sc):
+                        if isinstance(x, ast.Assign) and any(isinstance(y, ast.Name) and y.id in derived for y in ast.walk(x.value)):
+                            for t in x.targets:
+                                derived |= {y.id for y in ast.walk(t) if isinstance(y, ast.Name)}
+                for y in ast.walk(sc):
+                    params_of[id(y)] = derived
+            for nd in ast.walk(root):
+                if id(nd) in index_nodes:
+                    continue
+                if isinstance(nd, ast.BinOp) and isinstance(nd.op, (ast.Add, ast.Sub)) \
+                        and any(isinstance(y, ast.Name) and y.id in params_of.get(id(nd), set()) for y in ast.walk(nd)):
                     for const, other in ((nd.right, nd.left), (nd.left, nd.right)):
                         vs = [x for x in _possible_offsets(r, fn, mod, const) if abs(x) >= 1.0]
                         if not vs:
